@@ -13,7 +13,7 @@ SYSTEM = {
     'P31': 'hex', 'P-3': 'hex', 'R-3': 'hex', 'R3c': 'hex', 'P-31c': 'hex', 'P63/m': 'hex', 'P61': 'hex',
     'P213': 'cubic', 'Pa-3': 'cubic', 'F23': 'cubic',
 }
-ELEMENTS = ['C', 'N', 'O', 'H', 'Cl', 'S', 'I', 'Cs', 'Br', 'K']
+ELEMENTS = ['C', 'N', 'O', 'H', 'Cl', 'S', 'I', 'Cs', 'Br', 'K', 'D']       # D: deuterium, a hydrogen isotope for the bonding rule
 
 
 def radius(el):
@@ -132,14 +132,15 @@ def gen_structure(rng, name=None, natoms=None):
             atoms.append({'el': el, 'xyz': [round(x, 5) for x in p], 'part': part})
     # disordered hydrogen atoms: the parent in PART 0 (or in a PART), the hydrogens split over PART 1 / PART 2 (or PART 0)
     if rng.random() < 0.35:
-        parents = [a for a in atoms if a['el'] != 'H']
+        parents = [a for a in atoms if a['el'] not in ('H', 'D')]
+        hyd = rng.choice(['H', 'H', 'D'])
         for par in rng.sample(parents, min(len(parents), rng.randint(1, 2))):
             base = mv(M, par['xyz'])
             for hp in ((1, 2) if par['part'] == 0 else (0,)):
                 v = [rng.gauss(0, 1) for _ in range(3)]
                 ln = math.sqrt(sum(x * x for x in v)) or 1.0
                 r = rng.uniform(0.85, 1.05)
-                atoms.append({'el': 'H', 'xyz': [round(x, 5) for x in mv(Mi, [base[k] + v[k] / ln * r for k in range(3)])], 'part': hp})
+                atoms.append({'el': hyd, 'xyz': [round(x, 5) for x in mv(Mi, [base[k] + v[k] / ln * r for k in range(3)])], 'part': hp})
     for i, a in enumerate(atoms):
         a['name'] = '%s%d' % (a['el'], i + 1)
     qpeaks = [{'name': 'Q%d' % (i + 1), 'xyz': [round(rng.uniform(0, 1), 4) for _ in range(3)]} for i in range(rng.randint(0, 2))]
